@@ -41,7 +41,8 @@ def matches(q, ev, strict):
 def is_wellformed_conjunction(q):
     """the domain of C02: at least one condition (the relay refuses pure range scans / empty filters by
     policy — DESIGN.md §8 #23), ids/authors of exactly 64 hex digits"""
-    if q.ids is None and q.authors is None and q.kinds is None and not q.tags and q.since is None and q.until is None:
+    if q.ids is None and q.authors is None and q.kinds is None and not q.tags and not q.since and not q.until:
+        # {} / {"limit": n} / {"since": 0}: an unbounded range scan, refused by policy
         return False
     for l in (q.ids, q.authors):
         if l is not None and any(len(x) != 64 for x in l):
